@@ -8,8 +8,10 @@
    Semantics choices (each makes MORE programs faulty, never fewer):
    - int arithmetic is checked: a result outside [-2^31, 2^31) is a fault (signed overflow is UB);
    - << needs a non-negative left operand, a shift count in [0,32) and a representable result;
-   - reading *p needs p inside the input (terminator included); writing *p needs p at the end of
-     what has been written so far (sequential output), a null or foreign pointer is a fault;
+   - reading *p needs p inside the caller's buffer (terminator included); writing *p needs p at the
+     end of what has been written so far (sequential output) or inside the caller's buffer (in-place
+     update: sbdf_swap); pointers stay within [start, one past the end]; a null or foreign pointer is
+     a fault;
    - an uninitialised local may not be read;
    - operands are evaluated left to right (the translator refuses expressions whose value would
      depend on the order);
@@ -23,7 +25,7 @@ Inductive region := RIn | ROut.
 Inductive val := VInt (z : Z) | VPtr (r : region) (off : Z) | VNull | VUndef.
 
 Inductive cty := TInt | TUChar | TChar | TUInt.
-Inductive binop := Add | Sub | Mul | Shl | Shr | BAnd | BOr | BXor | Lt | Le | Gt | Ge | Eq | Ne.
+Inductive binop := Add | Sub | Mul | Div | Shl | Shr | BAnd | BOr | BXor | Lt | Le | Gt | Ge | Eq | Ne.
 
 Inductive expr :=
 | EConst (z : Z)
@@ -41,7 +43,10 @@ Inductive expr :=
 | ECond (c a b : expr)
 | EBinU (op : binop) (a b : expr)      (* the operation carried out in unsigned int (32 bits, wraps) *)
 | EReadByte (x : string)               (* fread(&x, 1, 1, f) with x an unsigned char local: 1 and x set, or 0 at end of stream *)
-| EWriteByte (e : expr).               (* fwrite(&x, 1, 1, f): 1 and the byte appended, or 0 when the stream refuses it *)
+| EWriteByte (e : expr)                (* fwrite(&x, 1, 1, f): 1 and the byte appended, or 0 when the stream refuses it *)
+| EPtrAdd (p e : expr)                 (* p + e on a char pointer *)
+| EPostDec (x : string)
+| EPreDec (x : string).
 
 Inductive stmt :=
 | SSkip
@@ -85,6 +90,7 @@ Definition binop_int (op : binop) (a b : Z) : option val :=
   | Add => chk (a + b)
   | Sub => chk (a - b)
   | Mul => chk (a * b)
+  | Div => if b =? 0 then None else chk (Z.quot a b)
   | Shl => if (0 <=? a) && (0 <=? b) && (b <? 32) then chk (Z.shiftl a b) else None
   | Shr => if (0 <=? a) && (0 <=? b) && (b <? 32) then chk (Z.shiftr a b) else None
   | BAnd => chk (Z.land a b)
@@ -106,6 +112,7 @@ Definition binop_uint (op : binop) (a b : Z) : option val :=
   | Add => Some (VInt ((a + b) mod u32))
   | Sub => Some (VInt ((a - b) mod u32))
   | Mul => Some (VInt ((a * b) mod u32))
+  | Div => if b =? 0 then None else Some (VInt (a / b))
   | Shl => if (0 <=? b) && (b <? 32) then Some (VInt (Z.shiftl a b mod u32)) else None
   | Shr => if (0 <=? b) && (b <? 32) then Some (VInt (Z.shiftr a b)) else None
   | BAnd => Some (VInt (Z.land a b))
@@ -149,10 +156,21 @@ Definition load (v : val) (s : state) : option val :=
   | _ => None
   end.
 
+Fixpoint upd_nth (i : nat) (x : Z) (l : list Z) : list Z :=
+  match l, i with
+  | [], _ => []
+  | _ :: r, O => x :: r
+  | y :: r, S i' => y :: upd_nth i' x r
+  end.
+
+(* writes: sequential into the output buffer, or in place inside the caller's buffer *)
 Definition store (p v : val) (s : state) : option state :=
   match p, v with
   | VPtr ROut o, VInt z =>
     if o =? Z.of_nat (List.length (outb s)) then Some {| vars := vars s; inb := inb s; outb := outb s ++ [z mod 256] |}
+    else None
+  | VPtr RIn o, VInt z =>
+    if (0 <=? o) && (o <? Z.of_nat (List.length (inb s))) then Some {| vars := vars s; inb := upd_nth (Z.to_nat o) (z mod 256) (inb s); outb := outb s |}
     else None
   | _, _ => None
   end.
@@ -171,6 +189,19 @@ Definition is_shift (op : binop) : bool := match op with Shl | Shr => true | _ =
    stream, never both: the translator refuses the mixture); fwrite appends to outb while the budget
    kept in the pseudo-variable "$budget" lasts *)
 Definition budget_var : string := "$budget".
+
+Definition decr (v : val) (s : state) : option val :=
+  match v with
+  | VInt z => chk (z - 1)
+  | VPtr RIn o => if 0 <? o then Some (VPtr RIn (o - 1)) else None
+  | _ => None
+  end.
+
+Definition ptr_add (p : val) (z : Z) (s : state) : option val :=
+  match p with
+  | VPtr RIn o => if (0 <=? o + z) && (o + z <=? Z.of_nat (List.length (inb s))) then Some (VPtr RIn (o + z)) else None
+  | _ => None
+  end.
 
 Fixpoint eval (e : expr) (s : state) : option (val * state) :=
   match e with
@@ -274,6 +305,29 @@ Fixpoint eval (e : expr) (s : state) : option (val * state) :=
     | b :: r => match set_var x (VInt b) {| vars := vars s; inb := r; outb := outb s |} with
                 | Some s1 => Some (VInt 1, s1) | None => None end
     | [] => Some (VInt 0, s)
+    end
+  | EPtrAdd p a =>
+    match eval p s with
+    | Some (pv, s1) =>
+      match eval a s1 with
+      | Some (VInt z, s2) => match ptr_add pv z s2 with Some v => Some (v, s2) | None => None end
+      | _ => None
+      end
+    | None => None
+    end
+  | EPostDec x =>
+    match lookup x (vars s) with
+    | Some v => match decr v s with
+                | Some v' => match set_var x v' s with Some s1 => Some (v, s1) | None => None end
+                | None => None end
+    | None => None
+    end
+  | EPreDec x =>
+    match lookup x (vars s) with
+    | Some v => match decr v s with
+                | Some v' => match set_var x v' s with Some s1 => Some (v', s1) | None => None end
+                | None => None end
+    | None => None
     end
   | EWriteByte a =>
     match eval a s with
